@@ -71,15 +71,15 @@ def check_decode_case(case, acc):
                 kind, param = isogen.default_variant(base[str(nb)])
                 msg['DE%d' % nb] = isogen.build_value(base[str(nb)], kind, param, enc, 0, nb)
     acc.case(('dec', case['cfg'], case['bit'], case['proc'], case['len'], enc, case['neighbours'], case['via'],
-              case.get('lf')),
+              case.get('lf'), case.get('hex')),
              nontrivial=True, outcome=case['proc'] + ':' + case['via'])
     try:
-        data, _ = iso_ref.encode(msg, cfg, enc, False)
+        data, _ = iso_ref.encode(msg, cfg, enc, bool(case.get('hex')))
     except iso_ref.RefError as ex:
         raise core.Broken('reference cannot encode %r: %s' % (case, ex))
     try:
         if case['via'] == 'loads':
-            out = iso8583.loads(data, encoding=enc, iso_config=cfg)
+            out = iso8583.loads(data, encoding=enc, iso_config=cfg, hex_bitmap=bool(case.get('hex')))
         else:
             f = io.BytesIO(vbs_ref.frame([data]))
             recs = list(mciipm.IpmReader(f, encoding=enc, iso_config=cfg))
@@ -178,6 +178,9 @@ def tasks(tier, seed):
                                     continue
                                 dec.append({'kind': 'dec', 'cfg': cfgname, 'bit': bit, 'proc': proc, 'len': n,
                                             'enc': enc, 'neighbours': nb, 'via': via, 'seed': seed})
+                                if n in (11, 16, 19) and via == 'loads':
+                                    dec.append({'kind': 'dec', 'cfg': cfgname, 'bit': bit, 'proc': proc, 'len': n,
+                                                'enc': enc, 'neighbours': nb, 'via': via, 'seed': seed, 'hex': True})
                                 if n in (16, 19) and via == 'loads' and not nb:
                                     for lf in (0, 7, n - 1):
                                         dec.append({'kind': 'dec', 'cfg': cfgname, 'bit': bit, 'proc': proc, 'len': n,
@@ -226,7 +229,7 @@ def describe(tier, seed):
                 'CR / NUL / TAB / NBSP / U+2028 / U+0085 at the edges of the three parts: same length, first six and last four kept, '
                 'every middle position is the mask character. Decoding: every LLVAR/LLLVAR element of the packaged '
                 'and %s generated configuration(s) re-configured with PAN and with PAN-PREFIX x PAN lengths 10..19, 99 '
-                '(100, 999 on LLLVAR) x {latin_1, cp500} x {alone, with both neighbour elements} through loads and '
+                '(100, 999 on LLLVAR) x {latin_1, cp500} x {alone, with both neighbour elements} through loads (binary and hex bitmap) and '
                 'through IpmReader: the element equals the masked value / first nine digits and (length >= 11) the '
                 'clear PAN is a substring of no value of the returned dict. In-place sequences: one configuration '
                 'object whose processor on an element is edited between decodes (none -> PAN -> PAN-PREFIX -> PAN -> '
